@@ -30,6 +30,7 @@ SIG_UNSUB_TOPIC = "sticky-stickiness:unsubscribed-cluster-topic-defeats-identica
 SIG_SUB_ORDER = "sticky-stickiness:subscription-list-order-defeats-identical-subscription-detection"
 SIG_STALE_INVALID = "sticky-invalid:partition-given-to-stale-lower-generation-claimant-not-subscribed"
 SIG_STALE_CRASH = "sticky-crash:KeyError-when-stale-lower-generation-claimant-is-a-fixed-consumer"
+SIG_STALE_UNBALANCED = "sticky-kip54:balanced-result-reverted-because-stale-lower-generation-claimant-adds-phantom-entry-to-score"
 
 
 _VCOUNT = collections.Counter()
@@ -41,7 +42,7 @@ def viol(ck, what, replay, signature=None):
     signature before the input-specific suffix): a broken assignor fails on tens of thousands
     of inputs and one replay file per input helps nobody.  All are counted."""
     sig = signature or what
-    known = (SIG_UNSUB_TOPIC, SIG_SUB_ORDER, SIG_STALE_INVALID, SIG_STALE_CRASH)
+    known = (SIG_UNSUB_TOPIC, SIG_SUB_ORDER, SIG_STALE_INVALID, SIG_STALE_CRASH, SIG_STALE_UNBALANCED)
     cat = sig if sig in known else sig.split(":")[0]
     _VCOUNT[cat] += 1
     ck.extra.setdefault("violations_by_category", {})[cat] = _VCOUNT[cat]
@@ -176,6 +177,17 @@ def stale_claimant_signature(case, kind, viol=None):
         return SIG_STALE_INVALID
     if kind == "crash":
         return SIG_STALE_CRASH
+    if kind == "unbalanced":
+        # F3: the run restored its prebalance copy, and some lower-generation claimant is not
+        # subscribed to the topic it claims (only such a claimant can be a "fixed" consumer
+        # whose phantom empty entry inflates the balance score)
+        if not viol or not viol.get("reverted"):
+            return None
+        for (t, p), c in conf.items():
+            gmax = max(g for g, _ in c)
+            if any(g < gmax and t not in subs.get(m, ()) for g, m in c):
+                return SIG_STALE_UNBALANCED
+        return None
     return None
 
 
@@ -431,10 +443,13 @@ def check_sticky(ck, case, st, tally, streams, origin, prop="C14"):
         viol(ck, f"sticky assignor: {bad[0]}", dict(replay, real=out, flaws=bad[:5], log=st),
                      signature=sig or f"sticky-invalid:{bad[0][0]}:{S.case_key(case)}"[:200])
     kb = mon_kip54(case, out)
+    known_unbalanced = False
     if kb and not known_invalid:
+        sig = stale_claimant_signature(case, "unbalanced", st)
+        known_unbalanced = sig is not None
         viol(ck, f"sticky assignor result not KIP-54 balanced: {kb[0]}",
                      dict(replay, real=out, flaws=kb[:5], log=st),
-                     signature=f"sticky-kip54:{S.case_key(case)}"[:200])
+                     signature=sig or f"sticky-kip54:{S.case_key(case)}"[:200])
     # the returned dict and the executor's final state must be the same ownership
     tally.ok("sticky:returned==executor-final",
              sorted(map(tuple, triples_of_out(out))) == sorted(map(tuple, st["final"])),
@@ -650,6 +665,13 @@ def run(ck: Check):
         else:
             ck.log("note: the known validity finding no longer reproduces on corpus/C14/stale_claimant.json")
             ck.extra["known_finding_reproduces"] = False
+        if len(corpus) > 2:
+            w = next((rr for j, r in zip(jobs, res) for case, rr in zip(j, r) if case is corpus[2]), None)
+            st = (w or {}).get("sticky") or {}
+            if "out" in st and mon_kip54(corpus[2], st["out"]):
+                ck.obligation("witness:c14_sticky_balanced_any_prev_refuted-log==real-log",
+                              st.get("assigns") == [] and st.get("reassigns") == [[0, 1, 3, 0, 1]]
+                              and st.get("reverted") == 1, json.dumps(st)[:300])
     if have_runner:
         results = run_ocaml([s for s, _ in streams])
         settle(ck, tally, streams, results, "ocaml")
